@@ -7,6 +7,8 @@ CONSTANTS
   MaxIgnores = 0
   MaxDiff = 0
   FixS1 = TRUE
+  FixQ1 = TRUE
+  Quoted = {}
   AnyOrder = TRUE
 INIT TraceInit
 NEXT TraceNext
